@@ -161,7 +161,8 @@ class Lib:
             K, nm, a, kws = self.log[0]
             perm = []
             for x in a:
-                j = [i for i, y in enumerate(args) if y is x]
+                # (the same python object may be passed twice -- small ints are interned: take the first unused position)
+                j = [i for i, y in enumerate(args) if y is x and i not in perm] or [i for i, y in enumerate(args) if y is x]
                 perm.append(j[0] if j else -1)
             d = ("call", K, nm, perm, list(kws))
         elif r[0] == "err":
@@ -807,6 +808,29 @@ def direct_cases(ctx, rng, lib):
                 add(f, [x, me], okind=ok)
             add(f, [a_t(lefts["1d"]), me], okind="1d")
             add(f, [me, a_t(rights["1d"])], okind="1d")
+    # functions the property does not name, with integer / tuple arguments (dimension-moving functions: an alias of a
+    # registered method and a function that is NOT an alias differ only for particular patterns -- non-adjacent
+    # dimensions, three batch dimensions, negative indices; equal batch sizes keep the shape, so the values must tell)
+    if new_funcs:
+        for batch in ([2, 3, 4], [2, 2, 2], [3]):
+            e = ob.gen(rng, "Dense", batch=batch, m=2, n=2)
+            me = a_op(e)
+            nd = len(batch) + 2
+            for f in new_funcs:
+                for i in range(nd):
+                    add(f, [me, a_i(i)], okind="dims")
+                    add(f, [me, a_i(i - nd)], okind="dims")
+                    for j in range(nd):
+                        add(f, [me, a_i(i), a_i(j)], okind="dims")
+                        add(f, [me, a_i(i - nd), a_i(j - nd)], okind="dims")
+                    add(f, [me, a_i(i), a_i(-1 - i)], okind="dims")
+                perm = list(range(len(batch)))[::-1] + [nd - 2, nd - 1]
+                add(f, [me, a_l(perm)], okind="dims")
+                add(f, [me, a_l(range(nd))], okind="dims")
+                if len(batch) >= 2:
+                    add(f, [me, a_l([0, 1]), a_l([1, 0])], okind="dims")
+                    add(f, [me, a_l([0, 1]), a_l([len(batch) - 1, 0])], okind="dims")
+                    add(f, [me, a_l([0, -3]), a_l([-3, 0])], okind="dims")
     # ---- batches of constants in EVERY broadcastable layout, against operators with 1 and >= 2 batch dimensions,
     # including EQUAL batch sizes (where a constant aligned with the wrong batch dimension keeps the shape of the result
     # and only the values tell): for a batch shape (b1..bk) every shape (m1..mk,1,1) with mi in {1, bi}, the same with
@@ -974,6 +998,9 @@ def function_cases(ctx, rng, lib, insts):
         add("torch.clone", e, dtn, fargs=[], l2=l2)
         for a, b in ((-1, -2), (-2, -1), (nd - 2, nd - 1)):
             add("torch.transpose", e, dtn, [a_i(a), a_i(b)], fargs=[("i", a), ("i", b)], l2=l2)
+        # the same dimension twice: the identity for torch (family: every pair pattern, incl. the degenerate one)
+        for a in (-1, nd - 2) + ((0,) if nb >= 1 else ()):
+            add("torch.transpose", e, dtn, [a_i(a), a_i(a)], fargs=[("i", a), ("i", a)], l2=l2)
         if nb >= 2:
             add("torch.transpose", e, dtn, [a_i(0), a_i(1)], fargs=[("i", 0), ("i", 1)], l2=l2)
             p = [1, 0] + list(range(2, nd))
@@ -1142,7 +1169,12 @@ def fkey(case, out, fail):
     k = {"call": f, "sem": f.split(".")[-1], "class": next(x[1] for x in kinds if x[0] == "op"), "form": form, "method": d[2] if d[0] == "call" else None,
          "layer": "method" if fail == "differs-from-method" else "dense", "fail": fail, "route": "first", "other": "none", "kw": form}
     batch = len(real_shape(case)) > 2
-    if k["sem"] == "diagonal" and form == "default" and batch and fail in ("value", "raises:RuntimeError"):
+    nd_ = len(real_shape(case))
+    same_dim = (k["sem"] == "transpose" and len(case["args"]) == 3 and all(a["k"] == "i" for a in case["args"][1:])
+                and case["args"][1]["v"] % nd_ == case["args"][2]["v"] % nd_)
+    if same_dim and fail in ("value", "raises:RuntimeError"):
+        k["cell"] = "transpose-same-dim"
+    elif k["sem"] == "diagonal" and form == "default" and batch and fail in ("value", "raises:RuntimeError"):
         k["cell"] = "diagonal-default-dims"
     elif k["sem"] in ("exp", "log") and fail == "value" and k["class"] in ("DiagLinearOperator", "ConstantDiagLinearOperator", "IdentityLinearOperator", "KroneckerProductDiagLinearOperator"):
         k["cell"] = "diag-exp-log-diagonal-only"
@@ -1500,6 +1532,102 @@ def check_value_case(ctx, lib, real, case):
     return out, fail
 
 
+# ------------------------------------------------------------------------------------------ call sequences (Q)
+
+def _sym_ok(V, w, dn):
+    I = torch.eye(dn.shape[-1], dtype=dn.dtype).expand(V.shape).contiguous()
+    return same_value(V @ torch.diag_embed(w) @ V.mT, dn, F_TOL) and same_value(V.mT @ V, I, F_TOL) \
+        and same_value(torch.sort(w, -1)[0], torch.linalg.eigvalsh(dn), F_TOL)
+
+
+def _svals_ok(S, dn):
+    return same_value(torch.sort(S, -1, descending=True)[0], torch.linalg.svdvals(dn), F_TOL)
+
+
+# handle -> (group, call on the operator, predicate on (plain result, dense matrix, rhs)).  Each predicate states what
+# the call MEANS by its own API (op.svd() returns V, torch.linalg.svd returns V^T, ...), against plain torch on the dense matrix.
+HANDLES = {
+    "op.svd()": ("svd", lambda op, rhs: op.svd(), lambda r, dn, rhs: same_value(r[0] @ torch.diag_embed(r[1]) @ r[2].mT, dn, F_TOL) and _svals_ok(r[1], dn)),
+    "torch.linalg.svd(op)": ("svd", lambda op, rhs: torch.linalg.svd(op), lambda r, dn, rhs: same_value(r[0] @ torch.diag_embed(r[1]) @ r[2], dn, F_TOL) and _svals_ok(r[1], dn)),
+    "op.eigh()": ("eig", lambda op, rhs: op.eigh(), lambda r, dn, rhs: _sym_ok(r[1], r[0], dn)),
+    "torch.linalg.eigh(op)": ("eig", lambda op, rhs: torch.linalg.eigh(op), lambda r, dn, rhs: _sym_ok(r[1], r[0], dn)),
+    "op.eigvalsh()": ("eig", lambda op, rhs: op.eigvalsh(), lambda r, dn, rhs: same_value(torch.sort(r, -1)[0], torch.linalg.eigvalsh(dn), F_TOL)),
+    "torch.linalg.eigvalsh(op)": ("eig", lambda op, rhs: torch.linalg.eigvalsh(op), lambda r, dn, rhs: same_value(torch.sort(r, -1)[0], torch.linalg.eigvalsh(dn), F_TOL)),
+    "op.cholesky()": ("chol", lambda op, rhs: op.cholesky(), lambda r, dn, rhs: same_value(r, torch.linalg.cholesky(dn), F_TOL)),
+    "op.cholesky(upper=True)": ("chol", lambda op, rhs: op.cholesky(upper=True), lambda r, dn, rhs: same_value(r, torch.linalg.cholesky(dn, upper=True), F_TOL)),
+    "torch.linalg.cholesky(op)": ("chol", lambda op, rhs: torch.linalg.cholesky(op), lambda r, dn, rhs: same_value(r, torch.linalg.cholesky(dn), F_TOL)),
+    "torch.linalg.cholesky(op, upper=True)": ("chol", lambda op, rhs: torch.linalg.cholesky(op, upper=True), lambda r, dn, rhs: same_value(r, torch.linalg.cholesky(dn, upper=True), F_TOL)),
+    "op.logdet()": ("chol", lambda op, rhs: op.logdet(), lambda r, dn, rhs: same_value(r, torch.logdet(dn), F_TOL)),
+    "torch.logdet(op)": ("chol", lambda op, rhs: torch.logdet(op), lambda r, dn, rhs: same_value(r, torch.logdet(dn), F_TOL)),
+    "op.solve(rhs)": ("chol", lambda op, rhs: op.solve(rhs), lambda r, dn, rhs: same_value(r, torch.linalg.solve(dn, rhs), F_TOL)),
+    "torch.linalg.solve(op, rhs)": ("chol", lambda op, rhs: torch.linalg.solve(op, rhs), lambda r, dn, rhs: same_value(r, torch.linalg.solve(dn, rhs), F_TOL)),
+    "op.diagonal()": ("diag", lambda op, rhs: op.diagonal(), lambda r, dn, rhs: same_value(r, torch.diagonal(dn, dim1=-2, dim2=-1), F_TOL)),
+    "torch.diagonal(op, dim1=-2, dim2=-1)": ("diag", lambda op, rhs: torch.diagonal(op, dim1=-2, dim2=-1), lambda r, dn, rhs: same_value(r, torch.diagonal(dn, dim1=-2, dim2=-1), F_TOL)),
+    "torch.sum(op, -1)": ("diag", lambda op, rhs: torch.sum(op, -1), lambda r, dn, rhs: same_value(r, dn.sum(-1), F_TOL)),
+}
+QUICK_SKIP = {"op.cholesky(upper=True)", "op.eigvalsh()"}
+
+
+def sequence_cases(ctx, rng, lib):
+    """Layer Q: call SEQUENCES on ONE operator object (the library memoises factorizations on the object): for every
+    ordered pair (a, b) of handles of one group -- the method and the torch function that reach the same or related
+    handlers -- the calls a, b, a are made on a fresh positive definite reference instance and EACH result is compared
+    with plain torch on the dense matrix, by the meaning of its own API."""
+    groups = {}
+    for h, (g, _, _) in HANDLES.items():
+        if ctx.quick and h in QUICK_SKIP:
+            continue
+        groups.setdefault(g, []).append(h)
+    cases = []
+    for cname, e in psd_instances(ctx, rng, lib):
+        if cname == "TriangularLinearOperator":
+            continue              # not symmetric
+        dn = ob.dense(e)
+        rhs = rt(rng, list(dn.shape[:-1]) + [2])
+        for g, hs in sorted(groups.items()):
+            for a in hs:
+                for b in hs:
+                    if a != b:
+                        cases.append({"seq": True, "op": e, "class": cname, "group": g, "steps": [a, b, a], "rhs": rhs, "dtype": "float64"})
+    return cases
+
+
+def run_sequence(lib, case):
+    """returns (failure dict | None, per-step outcomes)"""
+    op = ob.build(case["op"])
+    dn = ob.dense(case["op"])
+    rhs = ob.tt(case["rhs"])
+    outs = []
+    fail = None
+    for k, h in enumerate(case["steps"]):
+        _, call, pred = HANDLES[h]
+        try:
+            with warnings.catch_warnings():
+                warnings.simplefilter("ignore")
+                r = ("ok", to_plain(call(op, rhs), lib.root))
+        except Exception as ex:          # noqa
+            r = ("err", ex)
+        outs.append(r)
+        if fail is None:
+            if r[0] == "err":
+                if not isinstance(r[1], NotImplementedError):
+                    fail = {"step": k, "handle": h, "fail": "raises:%s" % exn_name(r[1])}
+            else:
+                try:
+                    ok = bool(pred(r[1], dn, rhs))
+                except Exception:        # noqa
+                    ok = False
+                if not ok:
+                    fail = {"step": k, "handle": h, "fail": "value"}
+    return fail, outs
+
+
+def seq_key(case, fail):
+    before = case["steps"][:fail["step"]]
+    return {"call": "sequence", "group": case["group"], "class": case["class"], "handle": fail["handle"], "after": " ; ".join(before) or "nothing",
+            "fail": fail["fail"], "cell": "sequence/%s/%s/after[%s]/%s" % (case["class"], fail["handle"], " ; ".join(before), fail["fail"])}
+
+
 # ------------------------------------------------------------------------------------------ shrinking / reporting
 
 CLASS_RANK = {"DenseLinearOperator": 0, "DiagLinearOperator": 1, "UserMinimal": 2}
@@ -1851,6 +1979,24 @@ def correspondence(ctx, meta, rng, coq=True, width=None, broken=None):
             guarded(one_function, case)
         tb["functions_s"] = round(time.time() - t1, 1)
         t1 = time.time()
+        # ---- Q: call sequences on one operator object (direct predicate only)
+        qcs = sequence_cases(w, rng, lib)
+        qfails = {}
+        q_steps = 0
+        saved_depth, lib.depth = lib.depth, 1          # the spies stay silent
+        try:
+            for case in qcs:
+                r = guarded(run_sequence, lib, case)
+                q_steps += len(case["steps"])
+                if r is not None and r[0] is not None:
+                    k2 = seq_key(case, r[0])
+                    sig = json.dumps({a: k2[a] for a in ("class", "handle", "after", "fail")}, sort_keys=True)
+                    if sig not in qfails or r[0]["step"] < qfails[sig][2]["step"]:
+                        qfails[sig] = (k2, case, r[0], r[1])
+        finally:
+            lib.depth = saved_depth
+        tb["sequences_s"] = round(time.time() - t1, 1)
+        t1 = time.time()
         # ---- shrink the failing value cases that are not listed known findings (simplest operator class first)
         fail_rank = lambda f: 0 if f == "value" else (1 if f == "no-raise" else (2 if str(f).startswith("raises") else 3))
         order = sorted(fails.items(), key=lambda kv: (CLASS_RANK.get(kv[1][0].get("class"), 9), fail_rank(kv[1][0].get("fail")), kv[0]))
@@ -1889,6 +2035,17 @@ def correspondence(ctx, meta, rng, coq=True, width=None, broken=None):
                                          "differs-from-expected-method": "the corresponding method"}.get(k2["fail"], "torch on the densified operands"))}
         if orig is not None:
             rp["shrunk_from"] = {"call": orig["call"], "args": orig["args"], "kw": orig["kw"]}
+        rp.update(extra_info)
+        reported += bool(ctx.violation(rp, key=k2))
+    for sig, (k2, case, f_, outs) in sorted(qfails.items(), key=lambda kv: (CLASS_RANK.get(kv[1][0]["class"], 9), kv[1][2]["step"], kv[0])):
+        if ctx.violations >= 40:
+            break
+        steps = case["steps"][:f_["step"] + 1]
+        rp = {"kind": "call-sequence-mismatch", "call": "op = %s(shape %s); %s" % (case["class"], list(ob.dense(case["op"]).shape), "; ".join(steps)),
+              "case": {"seq": True, "op": case["op"], "class": case["class"], "group": case["group"], "steps": steps, "rhs": case["rhs"], "dtype": "float64"},
+              "observed": [res_repr(o) for o in outs[:f_["step"] + 1]],
+              "what": "on ONE operator object, after %s the call %s no longer means what its API says (compared with plain torch on the dense matrix)" % (
+                  " ; ".join(steps[:-1]) or "no earlier call", f_["handle"])}
         rp.update(extra_info)
         reported += bool(ctx.violation(rp, key=k2))
     for sig, (k2, case, out) in sorted(ffails.items()):
@@ -1982,7 +2139,8 @@ def correspondence(ctx, meta, rng, coq=True, width=None, broken=None):
             "(validated by the value correspondence for every class; the contracts of the 14 delegating root methods are PROVED from their translated bodies)",
             "python's object model as modelled in coq/C15/Model.v: MRO lookup, the binary-operator protocol, torch.overrides._get_overloaded_args",
             "correspondence harness harness/c15.py (spies on class __dict__ entries, opbuild builders and dense oracle, comparators coq/C15/Check.v incl. the rational tensor algebra TQ)"],
-        "evaluations": len(rcases) + n_dcs_all + len(ucs) + len(vouts) + len(xouts) + len(fouts),
+        "evaluations": len(rcases) + n_dcs_all + len(ucs) + len(vouts) + len(xouts) + len(fouts) + q_steps,
+        "sequence_cases": len(qcs), "sequence_calls": q_steps, "sequence_failing_keys": len(qfails),
         "distinct_nontrivial": nontriv,
         "rule": "value cases (operator built by opbuild from small-integer data, real torch call, densified result) counted distinct by "
                 "(call, route first/second, kind and shape class of the other operand, keyword, number of extra positional arguments, operator class; "
@@ -2029,6 +2187,12 @@ def replay(rp):
     try:
         class Dummy:
             pass
+        if case.get("seq"):
+            f_, outs = run_sequence(lib, case)
+            for h, o in zip(case["steps"], outs):
+                print("step      :", h, "->", str(res_repr(o))[:300])
+            print("property failure: %s at %s" % (f_["fail"], f_["handle"]) if f_ else "property holds on this sequence")
+            return 1 if f_ else 0
         if case.get("function"):
             out, fail = check_function_case(lib, real, case)
         else:
